@@ -298,6 +298,10 @@ def run_conelp_family(ctx, judge_status, mix, with_backends=True, op_fraction=0.
             kkt, kkt_label, start, oclass = None, "backend", "none", "default"
             opts = {"show_progress": False, "glpk": {"msg_lev": "GLP_MSG_OFF"}, "msg_lev": "GLP_MSG_OFF",
                     "dsdp": {"DSDP_Monitor": 0}}
+            if backend == "dsdp" and rng.random() < 0.3:
+                # DSDP stopped by its own iteration limit has not converged: sdp() must not call that 'optimal'
+                opts["dsdp"]["DSDP_MaxIts"] = rng.choice([1, 2, 4, 8])
+                ctx.count("backend.dsdp.iteration-limit")
         # kktreg (undocumented regularisation, ldl only) is combined with the default tolerances only: a
         # tolerance below the regularisation level asks for more than the regularised system can deliver
         if kkt_label == "ldl" and rng.random() < 0.15 and not backend and oclass in ("default", "refinement", "maxiters"):
@@ -353,6 +357,22 @@ def run_conelp_family(ctx, judge_status, mix, with_backends=True, op_fraction=0.
         if backend == "dsdp" and st == "optimal":
             # one mechanism key: DSDP_PDFEASIBLE is relayed as 'optimal' whether or not DSDP converged
             promised = [f for f in c.failed[nfail0:] if ":optimal-" in f["key"]]
+            limited = promised and "DSDP_MaxIts" in opts.get("dsdp", {})
+            if limited:
+                # is it the iteration limit, or the recorded DSDP_PDFEASIBLE-without-convergence mechanism?  solve again without limit
+                o2 = dict(opts); o2["dsdp"] = {"DSDP_Monitor": 0}
+                sol2, _, exc2 = sr.call_entry(entry, pr, args, options=o2, solver=backend)
+                c2_failed = len(c.failed)
+                if exc2 is None and sol2.get("status") == "optimal":
+                    certs.judge_cone_result(c, ctx, pr, sr.normalise(entry, sol2, d), o2, "recheck", external=backend)
+                unlimited_bad = any(":optimal-" in f["key"] for f in c.failed[c2_failed:])
+                del c.failed[c2_failed:]
+                if not unlimited_bad:
+                    c.failed[nfail0:] = [f for f in c.failed[nfail0:] if ":optimal-" not in f["key"]]
+                    c.fail("sdp+dsdp:optimal-although-DSDP-stopped-at-its-iteration-limit",
+                           "sdp(solver='dsdp', DSDP_MaxIts=%r) returned 'optimal' for a point that misses the optimality conditions by more than 1e-3 "
+                           "(without the limit the result is fine): " % opts["dsdp"]["DSDP_MaxIts"] + "; ".join(f["msg"][:120] for f in promised[:3]))
+                    promised = []
             if promised:
                 c.failed[nfail0:] = [f for f in c.failed[nfail0:] if ":optimal-" not in f["key"]]
                 c.fail("sdp+dsdp:optimal-status-but-not-converged-to-1e-3",
